@@ -17,7 +17,7 @@ LEVEL_NOTE = "trusted: the reference ledger"
 
 
 def runs(tier, seed):
-    return [cc.make_run("spend", tier, 48, 1000)]
+    return [cc.make_run("spend", tier, 32, 480)]
 
 
 def check(rec, st):
